@@ -343,9 +343,20 @@ class G:
         L = []
         if self.opt(0.8):
             L.append([self.kw("library"), self.ident("ieee"), ";"])
+            if self.opt(0.25):
+                L.append(None)  # a blank line inside the library region
             L.append([self.kw("use"), self.ident("ieee"), ".", self.ident("std_logic_1164"), ".", self.kw("all"), ";"])
+            if self.opt(0.2):
+                L.append(None)
             if self.opt():
                 L.append([self.kw("use"), self.ident("ieee"), ".", self.ident("numeric_std"), ".", self.kw("all"), ";"])
+            if self.opt(0.3):
+                if self.opt(0.3):
+                    L.append(None)
+                L.append([self.kw("context"), self.ident("ieee"), ".", self.ident("ieee_std_context"), ";"])
+            if self.opt(0.2):
+                L.append([self.kw("library"), self.ident("work"), ";"])
+                L.append([self.kw("use"), self.ident("work"), ".", self.ident("pkg_common"), ".", self.kw("all"), ";"])
             L.append(None)
         kind = r.randrange(10)
         if kind < 7:
